@@ -612,11 +612,34 @@ func mergeStates(base *State, outs []*State) (res *State) {
 			for k, w := range acc.ghost {
 				v, ok := o.ghost[k]
 				if !ok {
+					if strings.HasPrefix(k, "#dyn:") {
+						// a call counter known on one side only: unknown from here on
+						acc.ghost[k] = AbsV{}
+						continue
+					}
 					delete(acc.ghost, k)
+					continue
+				}
+				if strings.HasPrefix(k, "#dyn:") {
+					sv, ok1 := v.(Scalar)
+					sw, ok2 := w.(Scalar)
+					if !ok1 || !ok2 || sv.T != sw.T {
+						acc.ghost[k] = AbsV{}
+					}
 					continue
 				}
 				if !sameValue(v, w) {
 					acc.ghost[k] = mergeVal(g, v, w)
+				}
+			}
+		}
+		for k := range o.ghost {
+			if strings.HasPrefix(k, "#dyn:") {
+				if acc.ghost == nil {
+					acc.ghost = map[string]Value{}
+				}
+				if _, ok := acc.ghost[k]; !ok {
+					acc.ghost[k] = AbsV{}
 				}
 			}
 		}
